@@ -640,6 +640,19 @@ fn nt_c10(_c: &Case, _out: &Outcome, h: &Hist) -> bool {
 
 fn gen_c18(rng: &mut Rng, thorough: bool) -> Case {
     let o = TimeOpts { clock_lag_pct: 30, invalid_pct: 3, max_cmds: if thorough { 12 } else { 9 }, ..Default::default() };
+    // A few cases per thousand: more than one injector bucket (128) of models, each scheduling an
+    // event on itself for the same time during `init` - the tasks of `init` and of that time step
+    // are all spawned before the executor runs, i.e. before the clock is synchronised.
+    if rng.below(1000) < (if thorough { 4 } else { 3 }) {
+        let mut c = gen_big_bench(rng);
+        let unit = 1_000_000_007u64;
+        for n in c.nodes.iter_mut() {
+            n.init.push(Op::Sched { kind: 0, when: When::Rel(unit), mode: Mode::Plain });
+        }
+        c.script = vec![Cmd::Step, Cmd::Step];
+        c.profile = "clock-big".into();
+        return c;
+    }
     let mut c = gen::gen_time(rng, &o);
     c.profile = "clock".into();
     c
